@@ -469,6 +469,8 @@ impl Prims {
             // gram were packed into 16 bits per letter ([x,a,U+20061] ~ [x,c,a]; [x,U+20061,r] ~ [z,a,r])
             // title-case letters (neither upper nor lower case) and their lower-case forms: different letters, different grams
             "ǅemal", "ǆemal", "ᾈδης", "ᾀδης",
+            // plane-16 letters (bit 20 set) next to the words they collide with if a gram were packed into 20 bits per letter
+            "ab\u{100000}d", "ac", "ac\u{100000}", "\u{10fffd}b", "b",
             "xa\u{20061}", "xca", "x\u{20061}r", "zar", "\u{20061}bc", "abc", "\u{20062}\u{20061}", "ba",
         ];
         let n = match cx.rng.below(40) {
@@ -485,7 +487,7 @@ impl Prims {
         }
         let k = cx.rng.range(2, words.len());
         // one store in ten draws from the last eight words only (the non-BMP letters and their BMP look-alikes)
-        let lo = if cx.rng.chance(1, 10) { words.len() - 12 } else { 0 };
+        let lo = if cx.rng.chance(1, 10) { words.len() - 17 } else { 0 };
         let k = if lo > 0 { words.len() } else { k };
         if lo > 0 {
             cx.count("stores of words with letters above U+FFFF and their 16-bit look-alikes");
